@@ -49,6 +49,8 @@ def build_tree(path: str, options: Optional[graphtage.BuildOptions] = None, *arg
         CSVNode: The resulting CSV node object.
 
     """
+    if options is None:
+        options = graphtage.BuildOptions()
     csv_data = []
     with open(path) as f:
         for row in csv.reader(f, *args, **kwargs):
@@ -56,8 +58,16 @@ def build_tree(path: str, options: Optional[graphtage.BuildOptions] = None, *arg
             for col in rowdata:
                 if isinstance(col, graphtage.StringNode):
                     col.quoted = False
-            csv_data.append(CSVRow(rowdata))
-    return CSVNode(csv_data)
+            csv_data.append(CSVRow(
+                rowdata,
+                allow_list_edits=options.allow_list_edits,
+                allow_list_edits_when_same_length=options.allow_list_edits_when_same_length
+            ))
+    return CSVNode(
+        csv_data,
+        allow_list_edits=options.allow_list_edits,
+        allow_list_edits_when_same_length=options.allow_list_edits_when_same_length
+    )
 
 
 class CSVRowFormatter(SequenceFormatter):
